@@ -12,8 +12,10 @@ mod aead;
 mod curve;
 mod hash;
 mod misc;
+mod pwstr;
 #[cfg(feature = "nightly")]
 mod nightly;
+mod polymath;
 mod sign;
 mod so;
 mod stream;
@@ -36,6 +38,7 @@ fn property(id: &str) -> Option<(Registry, Option<Gen>)> {
         "C07" => (hash::C07, Some(hash::c07 as Gen)),
         "C08" => (hash::C08, Some(hash::c08 as Gen)),
         "C09" => (misc::C09, Some(misc::c09 as Gen)),
+        "C10" => (pwstr::C10, Some(pwstr::c10 as Gen)),
         "C11" => (misc::C11, Some(misc::c11 as Gen)),
         "C12" => (misc::C12, Some(misc::c12 as Gen)),
         "C13" => (curve::C13, Some(curve::c13 as Gen)),
@@ -46,7 +49,7 @@ fn property(id: &str) -> Option<(Registry, Option<Gen>)> {
         "C17" => (aead::C17, Some(aead::c17 as Gen)),
         // properties about memory protection, build configurations and the
         // type system: nothing to replay against libsodium
-        "C10" | "C14" | "C15" | "C18" | "C19" | "C20" => (&[], None),
+        "C14" | "C15" | "C18" | "C19" | "C20" => (&[], None),
         _ => return None,
     })
 }
